@@ -207,7 +207,11 @@ def run_history(ctx, spec):
     def deliver(raw):
         tr = loop.datagram_transports[0]
         if not tr.closed:
-            tr.deliver(raw, PEER)
+            try:
+                tr.deliver(raw, PEER)
+            except Exception as exc:  # noqa: BLE001 - recorded; what it does to sending is judged (a stalled send is a violation)
+                kinds.append("raised-" + type(exc).__name__)
+                ctx.count("delivery_raised_" + type(exc).__name__)
 
     def deliver_busy(wait):
         busy_log.append((loop.time(), wait, len(loop.wire)))
